@@ -20,7 +20,7 @@
 (***************************************************************************)
 EXTENDS Types, Json, IOUtils
 
-CONSTANTS MaxNodes, D
+CONSTANTS MaxNodes, D, SampleMod, SampleRem
 
 VARIABLE ns
 
@@ -120,6 +120,26 @@ Renderable(G, v) ==
     [] v.k = "fn"  -> v.ctx = <<>> /\ Closed(G, v.n) /\ LitT(G, G.types[v.n].r)
     [] OTHER -> FALSE
 
+(* A seeded sample of the enumerated graphs: only states whose checksum falls in the      *)
+(* residue class SampleRem (mod SampleMod) emit C08 cases; SampleMod = 1 takes them all.  *)
+KindCode(k) == CASE k = "int" -> 1 [] k = "bin" -> 2 [] k = "ref" -> 3 [] k = "res" -> 5
+                 [] k = "cyc" -> 7 [] k = "tup" -> 11 [] k = "par" -> 13 [] k = "uni" -> 17
+                 [] k = "fn" -> 19 [] k = "proc" -> 23
+RECURSIVE SumSeq(_)
+SumSeq(q) == IF q = <<>> THEN 0 ELSE q[1] + SumSeq(Tail(q))
+NodeCode(nd) ==
+  KindCode(nd.k)
+  + (IF nd.k \in {"tup", "par"}
+     THEN (IF nd.name = "" THEN 0 ELSE IF nd.name = "A" THEN 29 ELSE 31)
+          + SumSeq([i \in DOMAIN nd.fs |-> 3 * nd.fs[i].t + (IF nd.fs[i].l = "" THEN 0 ELSE
+                                                            IF nd.fs[i].l = "x" THEN 37 ELSE 41)])
+     ELSE 0)
+  + (IF nd.k = "uni" THEN 5 * SumSeq(nd.ms) ELSE 0)
+  + (IF nd.k = "fn" THEN 7 * nd.p + 11 * nd.r ELSE 0)
+  + (IF nd.k = "proc" THEN 13 * nd.s + 17 * nd.r ELSE 0)
+Checksum == SumSeq([i \in DOMAIN ns |-> (2 * i + 1) * NodeCode(ns[i])])
+Sampled == SampleMod = 1 \/ Len(ns) <= 3 \/ (Checksum % SampleMod) = SampleRem
+
 Basic ==
   {I0, [k |-> "bin", b |-> <<1>>], [k |-> "ref", i |-> 0],
    TupVal("", <<>>, <<>>), TupVal("A", <<>>, <<>>), TupVal("A", <<"x">>, <<I0>>),
@@ -131,7 +151,7 @@ Emit8 ==
       W == {i \in 2..n : WellFormed(G, i)}
       U == TupleUniverse(G, W)
       V == {v \in Basic \cup UNION {Vals(G, U, i, <<>>, DV) : i \in W} : Renderable(G, v)}
-  IN  (n >= 2 /\ WellFormed(G, n) /\ Covers(G, {n})) =>
+  IN  (n >= 2 /\ Sampled /\ WellFormed(G, n) /\ Covers(G, {n})) =>
         \A v \in V :
           PrintT(<<"VCASE", ToJson([g |-> G, t |-> n, v |-> v,
                      must |-> Inhabits(G, U, v, n, D),
